@@ -52,7 +52,7 @@ ActionClauses(pre, r, post) ==
 Verdict(r) ==
   IF r.preanom # <<>> THEN <<"tainted">> ELSE
   LET pre == FromJ(r.pre) IN
-  IF ~DiIntegrity(pre) \/ ~UidFresh(pre) THEN <<"tainted">>
+  IF ~DiIntegrity(pre) THEN <<"tainted">>
   ELSE IF Unspecified(pre, r.op) THEN <<"unspecified">>
   ELSE IF r.postanom # <<>> THEN <<"C02:anomaly." \o r.postanom[1]>>
   ELSE
